@@ -235,6 +235,7 @@ pub fn run_node(w: &WorldDir, bins: &Bins, spec: &NodeSpec) -> NodeRun {
     let _ = std::fs::remove_file(w.trace());
     let _ = std::fs::remove_file(w.res());
     let cwd = if spec.cwd.is_empty() { root.clone() } else { root.join(&spec.cwd) };
+    let _ = std::fs::create_dir_all(&cwd); // a minimised op list may have lost the mkdir
 
     let mut plan = format!("root={};trace={};hashseed={}", root_s, w.trace().display(), spec.hashseed);
     for f in &spec.faults {
